@@ -274,7 +274,9 @@ func awkwardLeafStack(other bool) stackage.Stack {
 	if other {
 		st = eqStructX{A: 1, C: "c"}
 	}
-	return stackage.And().Push(st, []*int{&one, np}, []any{nil, &one, []int{1}, map[string]any{"k": np}}, map[string]any{"s": st})
+	// (no []any leaf: Unmarshal hands leaves out as they are, and the sweep's scribbling over the returned mimicry could not
+	// tell a leaf []any from the mimicry of a nested Stack)
+	return stackage.And().Push([]*int{&one, np}, map[string]any{"k": np, "j": 1}, [2]*int{np, &one}, st, map[string]any{"s": st})
 }
 
 func plainAnys() []named {
@@ -431,6 +433,13 @@ func liveStackMakers() []recvMaker {
 			return s.Push("m", "n")
 		}},
 		recvMaker{"AND-awkward-leaves", "Stack", func() any { return awkwardLeafStack(false) }},
+		recvMaker{"AND-shared-encap", "Stack", func() any {
+			// the encapsulation schemes of parent and child are slices of ONE backing array, the parent's with spare capacity:
+			// a query that appends to what it was given would write into the child's configuration
+			pair := []string{"<", ">"}
+			inner := stackage.Or().SetEncap(pair).Push("b", "c")
+			return stackage.And().SetEncap(pair[:1]).Push("a", inner, stackage.Cond("k", stackage.Eq, "v").SetEncap(pair[:1]))
+		}},
 		recvMaker{"OR-failing-validity", "Stack", func() any {
 			s := stackage.Or().Push("v1", "v2")
 			s.SetValidityPolicy(func(...any) error { return sentinelErr })
@@ -515,6 +524,7 @@ type SweepEvent struct {
 	ErrRes  string   `json:"errres"`  // "true" if an error-typed result was non-nil
 	Again   string   `json:"again"`   // query repeated: "same" | "differs" | "n/a"
 	Health  string   `json:"health"`  // post-call usability probe: "ok" | message | "n/a"
+	Twin    string   `json:"twin"`    // a SECOND handle to the same instance, taken before the call: "same" | "changed" afterwards
 }
 
 func holderOf(x any) reflect.Value {
@@ -602,6 +612,7 @@ type sweeper struct {
 func (sw *sweeper) call(mode string, rm recvMaker, holder reflect.Value, m reflect.Method, as argSet, probe bool, again bool) (panicked bool) {
 	cur := holder.Elem().Interface()
 	pre := Snap(cur)
+	twin := cur // a second handle (value copy of the handle, same underlying instance): what OTHER holders of the instance see
 	ev := SweepEvent{Ev: "call", Mode: mode, Recv: rm.name, Typ: rm.typ, Method: m.Name, Args: as.desc,
 		PreLive: b2s(pre.Live), PreRO: b2s(pre.Ronly), PreErr: pre.Err, Pre: pre.Rest, Again: "n/a", Health: "n/a"}
 	var res []reflect.Value
@@ -648,6 +659,10 @@ func (sw *sweeper) call(mode string, rm recvMaker, holder reflect.Value, m refle
 	}
 	post := Snap(holder.Elem().Interface())
 	ev.PostLive, ev.PostRO, ev.PostErr, ev.Post = b2s(post.Live), b2s(post.Ronly), post.Err, post.Rest
+	ev.Twin = "same"
+	if tp := Snap(twin); tp.Live != pre.Live || tp.Ronly != pre.Ronly || tp.Err != pre.Err || tp.Rest != pre.Rest {
+		ev.Twin = "changed"
+	}
 	if probe && ev.Panic == "" {
 		ev.Health = health(holder.Elem().Interface())
 	}
